@@ -129,6 +129,13 @@ func C10(seed uint64, run int) *spec.Spec {
 			hi = 9990
 		}
 		pickYear := func() int {
+			if lo <= 700 && r.Chance(0.3) {
+				// eras whose civil year began in the zi or chou month (lunar new year in the previous civil year), and the first years
+				y := r.Pick([]int{1, 2, 8, 9, 10, 19, 22, 23, 24, 236, 237, 238, 239, 240, 689, 690, 695, 700, 701, 761, 762})
+				if y >= lo && y <= hi {
+					return y
+				}
+			}
 			switch r.Weighted([]int{35, 20, 45}) {
 			case 0:
 				return hi
